@@ -85,6 +85,13 @@ def plan(tier, seed):
             words = [("en", EN[n - 1]), ("de", DE[n - 1])] + [("de", w) for w in DE_ALT.get(n, [])]
             if n == 1:
                 words += [("en", "a"), ("en", "an")]
+            if n in (1, 2, 12, 31) or tier == "thorough":
+                # number word + every spelling of every unit pattern, abbreviations included ('one m', 'zwei h')
+                for lang, w in words[:2]:
+                    for uname, alts in units:
+                        for a in alts:
+                            if not _reads_as_clock(a) or True:
+                                yield ("word_abbrev", "{} {}".format(w, a), n, uname, w + "+" + a, TS)
             for lang, w in words:
                 for uname, (en_u, de_u) in UNIT_WORDS.items():
                     for u in (en_u if lang == "en" else de_u):
@@ -142,6 +149,21 @@ def _reads_as_clock(a):
 
 def run_case(case):
     kind = case[0]
+    if kind == "word_abbrev":
+        # relational: a number word in front of a unit spelling must mean what the digit in front of the same spelling means
+        _, text, n, uname, spelling, ts_s = case
+        unit_sp = text.split(" ", 1)[1]
+        ref = res_obs(parse("{} {}".format(n, unit_sp), ts_s))
+        if ref != ("D", n, uname):
+            return {"o": "word_abbrev:skip", "skip": "the digit form of this unit spelling is itself not a duration (clock suffix or ambiguous word)", "nt": False}
+        if text.split(" ", 1)[0] in ("a", "an") and unit_sp in ("m", "h", "m.", "h."):
+            return {"o": "word_abbrev:skip", "skip": "'a m' / 'a h' read as am / ah", "nt": False}
+        got = res_obs(parse(text, ts_s))
+        ok = got == ref
+        out = {"o": "word_abbrev:" + ("ok" if ok else "bad"), "nt": True}
+        if not ok:
+            out["v"] = [viol({"kind": "word_abbrev", "unit": uname, "spelling": unit_sp}, "{!r} -> {} but '{} {}' -> {}".format(text, fmt(got), n, unit_sp, fmt(ref)), ref, got)]
+        return out
     if kind in ("digits", "word", "half"):
         _, text, n, uname, spelling, ts_s = case
         if kind == "digits" and _reads_as_clock(spelling):
